@@ -135,7 +135,7 @@ SPEC = {
         "literalInt_radix", "token_numeric_dispatch", "float_parts_shape_as_modelled", "lex_float_nearest", "nearest64_total", "nearest64_correct", "nearest64_zero",
         "nearest_correct_partial", "nearest_correct", "nearest_monotone", "nearest64_monotone",
         "nearest_exact_on_representable",
-        "literal_tables_as_modelled", "emit_int_exact", "emit_value_exact", "emit_whole_value_exact",
+        "literal_tables_as_modelled", "msl_double_literal_rejected", "emit_int_exact", "emit_value_exact", "emit_whole_value_exact",
         "emit_infinity_exact", "emit_negative_exact", "emit_f32_double_rounding_witness",
         "multi_file_spans_in_file", "multi_file_error_in_file"]],
     "harness": "c10",
@@ -162,7 +162,11 @@ SPEC = {
                   "(emit_int_exact); of a finite float of any kind to the same kind and bits (emit_value_exact) assuming "
                   "only that Rust's Display writes plain decimal digits, a '.' exactly for non-integers, whose nearest "
                   "double (narrowed once for f/h) is the value; whole values up to 2^63 (printed through `as i64`) and "
-                  "+inf (1.#INF) need no assumption (emit_whole_value_exact, emit_infinity_exact). The assumption is "
+                  "+inf (1.#INF) need no assumption (emit_whole_value_exact, emit_infinity_exact). Metal has no double: the "
+                  "Metal generate_literal (all 15 arms of both generators pinned with their results) builds no Float64 "
+                  "literal but returns UnsupportedDouble, and format_literal fails only at write_infinity_f64's "
+                  "`invalid msl` site, which needs exactly that node (msl_double_literal_rejected; after fix 9824ce3); "
+                  "an integer constant no literal can carry is IntLiteralOutOfRange in both generators (6017bad). The assumption is "
                   "checked bit for bit on every generated value and, in the thorough tier, on all 2^31 non-negative "
                   "singles: it fails for exactly one single, 0x15ae43fd (negation witness "
                   "emit_f32_double_rounding_witness; known finding). Rust's parse::<f64> / `as f32` are compared bit "
@@ -195,8 +199,8 @@ SPEC = {
         "Rust str::parse::<f64> and `f64 as f32` are trusted to be correctly rounded; the run compares them bit for bit "
         "with Spec/Dec2Bin.lean (exact Nat arithmetic) and with the harness' independent big-integer bisection",
         "Spec/Dec2Bin.lean and Spec/Lexer.lean: our reading of 'nearest double' and 'spans tile the file'",
-        "tools/gens/c10.py LitFormatTables (arms of format_literal, write_infinity_*, generate_literal hlsl/msl, "
-        "parse_literal) pinned by literal_tables_as_modelled; hand-written Model/LitFormat.lean mirrors format_literal "
+        "tools/gens/c10.py LitFormatTables (arms of format_literal, write_infinity_*, generate_literal hlsl/msl with "
+        "every result, parse_literal) pinned by literal_tables_as_modelled; hand-written Model/LitFormat.lean mirrors format_literal "
         "and is compared with rssl_formatter on every C10.fmt case",
         "Model/SourceMap.lean + Gen.SourceMapTables (C14's model of text/src/location.rs), compared with the real "
         "SourceManager on every C10.loc case",
